@@ -24,6 +24,9 @@ type C19Case struct {
 	F32 uint32 `json:"f32bits"`
 	I64 int64  `json:"i64"`
 	U64 uint64 `json:"u64"`
+
+	Sweep string `json:"sweep,omitempty"` // set on cases written by the exhaustive sweep (c19_sweep.go): f32 | i32 | u32
+	Bits  uint32 `json:"bits,omitempty"`  // the member of the sweep domain
 }
 
 func init() { register("C19", func() Case { return &C19Case{} }) }
@@ -133,6 +136,13 @@ func typeHasFloat32(t reflect.Type) bool {
 }
 
 func (c *C19Case) Run() (res stat.Result) {
+	if c.Sweep != "" {
+		if msg := (&sweepState{}).sweepOne(c.Sweep, c.Bits); msg != "" {
+			res.Err = fmt.Errorf("%s", msg)
+		}
+		res.NonTrivial = true
+		return
+	}
 	defer verifhook.SetDecoder(false, false)
 	fail := func(f string, a ...interface{}) stat.Result {
 		res.Err = fmt.Errorf(f, a...)
